@@ -52,7 +52,7 @@ class Rule:
 
 class TlsWith(Rule):
     """D4: `STATIC.with(|x| BODY)` -> `(BODY)`, and inside BODY `*x.borrow_mut()` / `x.borrow_mut()` -> `tls.FIELD`,
-    `let mut x = x.borrow_mut();` -> `let x = &mut tls.FIELD;`.  thread_local!/RefCell elimination: the
+    `let mut x = x.borrow_mut();` -> `let x = &mut tls.FIELD;`, `let x = x.borrow();` -> `let x = &tls.FIELD;`.  thread_local!/RefCell elimination: the
     thread-local lists become fields of an explicit `tls: &mut Tls` parameter.  RefCell's dynamic borrow
     check (a panic on re-entrant borrow) is not modelled."""
     def __init__(self, static, field, min_count=1):
@@ -79,6 +79,7 @@ class TlsWith(Rule):
             body_s, body_e = pm.end(), pc
             pats = [
                 (r"let\s+mut\s+%s\s*=\s*%s\.borrow_mut\(\)\s*;" % (param, param), "let %s = &mut tls.%s;" % (param, self.field)),
+                (r"let\s+%s\s*=\s*%s\.borrow\(\)\s*;" % (param, param), "let %s = &tls.%s;" % (param, self.field)),
                 (r"\*\s*%s\.borrow_mut\(\)" % param, "tls.%s" % self.field),
                 (r"\b%s\.borrow_mut\(\)" % param, "tls.%s" % self.field),
                 (r"\b%s\.borrow\(\)" % param, "tls.%s" % self.field),
